@@ -197,6 +197,8 @@ def k_inverse_search(eng, span=57, dmode="zero"):
                 if not terms:
                     out.append(("year-%d-term-looked-up" % k, "false"))
                     continue
+                # the Jie that opens the wanted month: term 3 (Lichun) of the term-year advanced by two per month branch after Yin
+                out.append(("year-%d-starts-from-the-months-jie" % k, "(= %s (+ 3 (* 2 (mod (- (mod %s 12) 2) 12))))" % (terms[-1].k.s, P["month"].s)))
                 ty = term_year(terms[-1])
                 if dmode == "zero":
                     in_range = "(>= %s %s)" % (ty, start.s)
